@@ -10,15 +10,45 @@ import GdVerif.Run.Settings
 import GdVerif.Run.Views
 import GdVerif.Run.Games
 import GdVerif.Run.IdCheck
+import GdVerif.Run.Real
+import GdVerif.Run.Cli
 import GdVerif.Run.Quake
 import GdVerif.Run.GenQuake
+import GdVerif.Run.Unreal2
+import GdVerif.Run.GenUnreal2
+import GdVerif.Run.Minecraft
+import GdVerif.Run.GenMinecraft
+import GdVerif.Run.Gs3
+import GdVerif.Run.Jc2m
+import GdVerif.Run.GenGs3
+import GdVerif.Run.GenJc2m
 /-
   gdmodel: the model behind a line protocol.
     gdmodel run        : reads `<id> <entry> <args…>` lines on stdin, prints `<id> <outcome>`
 -/
 open Gd Gd.Run
 
-def allEntries : List (String × (List String → String)) := readerEntries ++ valveEntries ++ masterEntries ++ settingsEntries ++ viewEntries ++ gameEntries ++ idCheckEntries ++ quakeEntries ++ gs1Entries ++ gs2Entries
+
+
+
+def allEntries : List (String × (List String → String)) := List.flatten [
+  readerEntries,
+  valveEntries,
+  masterEntries,
+  settingsEntries,
+  viewEntries,
+  gameEntries,
+  idCheckEntries,
+  realEntries,
+  cliEntries,
+  quakeEntries,
+  unreal2Entries,
+  McDrv.minecraftEntries,
+  gs3Entries,
+  jc2mEntries,
+  gs1Entries,
+  gs2Entries
+  ]
 
 def runLine (line : String) : String :=
   match line.trimAscii.toString.splitOn " " with
@@ -49,6 +79,11 @@ def main (args : List String) : IO UInt32 := do
         | "gs1" => genGs1 seed n
         | "gs2" => genGs2 seed n
         | "quake" => genQuake seed n
+        | "unreal2" => genUnreal2 seed n
+        | "u2str" => genUnreal2Strings seed n
+        | "mcjava" | "mcbedrock" | "mclegacy" | "mcauto" => McGen.genMinecraft suite seed n
+        | "gs3" => genGs3 seed n
+        | "jc2m" => genJc2m seed n
         | _ => []
       for l in lines do IO.println l
       return 0
